@@ -295,7 +295,11 @@ def family(name, quick=True):
             out.append(("fanout(nw=%d,n=%d,retry=%s,delay=%s,fail=%d)" % (nw, n, r, d, f),
                         fanout(nw, n, r, d, f, timeout=100), []))
     elif name == "equal_events":
+        # distinct events with the same type and payload (compare equal): told apart only by being separate objects
         out.append(("fanout_dup(2,3)", fanout_dup(2, 3), []))
+        # ... several of them waiting in the queue of a saturated step
+        out.append(("fanout_dup(1,3)", fanout_dup(1, 3), []))
+        out.append(("fanout_dup(2,4)", fanout_dup(2, 4), []))
         if not quick:
             out.append(("fanout_dup(3,4)", fanout_dup(3, 4), []))
     elif name == "routing":
